@@ -198,6 +198,9 @@ func (x *Exec) applyContractNamed(fr *Frame, st *State, con *Contract, names []s
 	for _, c := range con.Ensures {
 		st.assume(x.evalClauseBool(c, penv, st))
 	}
+	if !con.Pure {
+		x.checkRunning(fr, st, pos)
+	}
 	k(st, fr, res)
 }
 
